@@ -27,7 +27,7 @@ def root(n: size, x: f32[n, {b}], y: f32[n, {b}]):
         for q in seq(0, {b}):
             y[i, q] = t[{idx('0', 'q')}] + t[{idx(str(a - 1), 'q')}]
 """
-    return GenProgram(HEADER + body, "root", [], [], {"template": "temp2d"})
+    return GenProgram(HEADER + body, "root", [], [], {"template": "temp2d", "prefer_ops": ["autolift_alloc", "lift_alloc", "autofission", "fission", "sink_alloc", "expand_dim", "lift_scope"]})
 
 
 def t_two_loops(rng):
@@ -38,7 +38,7 @@ def t_two_loops(rng):
     d = _c(rng, [0, 0, 1, 2])
     lo2 = lo + d
     idx = "i" if d == 0 else f"i - {d}"
-    second = _c(rng, [f"y[{idx}] += x[i] * {c}", f"y[{idx}] = y[{idx}] + x[i]", f"z[{idx}] = y[i] * {c}"])
+    second = _c(rng, [f"y[{idx}] += x[i] * {c}", f"y[{idx}] = y[{idx}] + x[i]", f"z[{idx}] = y[i] * {c}", f"z[{idx}] = x[i] * {c}", f"z[{idx}] = {c}"])
     body = f"""@proc
 def root(n: size, x: f32[n], y: f32[n], z: f32[n]):
     assert n >= {max(2, lo2 + 1)}
@@ -49,7 +49,7 @@ def root(n: size, x: f32[n], y: f32[n], z: f32[n]):
     for i in seq(0, n):
         z[i] = z[i] + y[i]
 """
-    return GenProgram(HEADER + body, "root", [], [], {"template": "two_loops"})
+    return GenProgram(HEADER + body, "root", [], [], {"template": "two_loops", "prefer_ops": ["fuse", "fuse", "join_loops", "reorder_stmts"]})
 
 
 def t_reduce_const(rng):
@@ -63,7 +63,7 @@ def root(n: size, x: f32[n], y: f32[n], out: f32[1]):
         {inner}
     out[0] = acc
 """
-    return GenProgram(HEADER + body, "root", [], [], {"template": "reduce_const"})
+    return GenProgram(HEADER + body, "root", [], [], {"template": "reduce_const", "prefer_ops": ["bind_expr", "fold_into_reduce", "inline_assign", "stage_mem", "merge_writes"]})
 
 
 def t_sliding(rng):
@@ -78,7 +78,7 @@ def root(n: size, x: f32[n + {w - 1}], y: f32[n]):
         t[i + {w - 1}] = x[i + {w - 1}]
         y[i] = {taps}
 """
-    return GenProgram(HEADER + body, "root", [], [], {"template": "sliding"})
+    return GenProgram(HEADER + body, "root", [], [], {"template": "sliding", "prefer_ops": ["stage_mem", "divide_with_recompute", "divide_loop", "std.auto_stage_mem"]})
 
 
 def t_two_temps(rng):
@@ -97,7 +97,7 @@ def root(x: f32[{k}], z: f32[{k}], y: f32[{k}], w: f32[{k}]):
         w[i] = b[i] * b[i]
     unused: f32[{k}]
 """
-    return GenProgram(HEADER + body, "root", [], [], {"template": "two_temps"})
+    return GenProgram(HEADER + body, "root", [], [], {"template": "two_temps", "prefer_ops": ["reuse_buffer", "delete_buffer", "inline_assign", "resize_dim", "sink_alloc"]})
 
 
 def t_split_range(rng):
@@ -110,7 +110,7 @@ def root(n: size, x: f32[n], y: f32[n]):
     for i in seq({m}, n):
         y[i] = x[i] * 2.0
 """
-    return GenProgram(HEADER + body, "root", [], [], {"template": "split_range"})
+    return GenProgram(HEADER + body, "root", [], [], {"template": "split_range", "prefer_ops": ["join_loops", "cut_loop", "shift_loop", "fuse"]})
 
 
 def t_writes(rng):
@@ -223,7 +223,36 @@ def root(x: f32[4], y: f32[4], sc: f32):
     return GenProgram(HEADER + body, "root", ["sub", "subw"], ["Cfg"], {"template": "config_flow"})
 
 
-ALL = [t_temp2d, t_temp2d_call, t_two_loops, t_reduce_const, t_sliding, t_two_temps, t_split_range, t_writes, t_matmul, t_conv1d, t_blur]
+def t_name_clash(rng):
+    """several distinct symbols with one spelling once scheduled (inlined callee iterator and
+    temporary, unrolled/cut loops), next to arguments spelled like the printer's fallback
+    names (i_1, t_1, i_2) and a three-way condition"""
+    v = _c(rng, ["i", "j"])
+    t = _c(rng, ["t", "tmp"])
+    spare = _c(rng, [f"{v}_1", f"{t}_1", f"{v}_2", f"{v}_1"])
+    cond = _c(rng, [f"(n > 2 or flag) and {v} < 2", f"(n > 2 and flag) and {v} < 2", f"({v} < 1 or flag) or n > 3", f"n > 2 and (flag or {v} < 2)", "flag"])
+    body = f"""@proc
+def fill(n: size, dst: [f32][n], src: [f32][n]):
+    for {v} in seq(0, n):
+        {t}: f32
+        {t} = src[{v}] * 2.0
+        dst[{v}] = {t}
+
+
+@proc
+def root(n: size, x: f32[4, n], y: f32[4, n], {spare}: f32[n], flag: bool):
+    assert n >= 1
+    for {v} in seq(0, 4):
+        {t}: f32
+        {t} = {spare}[0]
+        fill(n, y[{v}, 0:n], x[{v}, 0:n])
+        if {cond}:
+            y[{v}, 0] += {t}
+"""
+    return GenProgram(HEADER + body, "root", ["fill"], [], {"template": "name_clash", "prefer_ops": ["inline", "inline", "unroll_loop", "cut_loop", "specialize", "inline_window"]})
+
+
+ALL = [t_temp2d, t_temp2d_call, t_two_loops, t_reduce_const, t_sliding, t_two_temps, t_split_range, t_writes, t_matmul, t_conv1d, t_blur, t_name_clash]
 
 
 def any_template(rng):
